@@ -60,7 +60,7 @@ Proof. exact hf_txn_missing. Qed.
 Print Assumptions C30_only_fee_and_type_missing.
 
 Theorem C30_required_fields_covered_partial : forall f, In f C30_required ->
-  f <> "Fee" -> f <> "TransactionType" -> he_mem f (he_paths hf_txn) = true.
+  f <> "Fee" -> f <> "TransactionType" -> he_mem f (he_covered hf_txn) = true.
 Proof. exact hf_txn_covered_except_fee_type. Qed.
 Print Assumptions C30_required_fields_covered_partial.
 
